@@ -23,6 +23,8 @@ NAME_POOLS = [
     ["Lang.A", "A-1", "x+y", "root", "ledge", "1", "23", "e1", "1e5"],
     ["%x", "a*b", "A|B", "{x}", "=", "a@b", "#1", "<t>", "~"],
     ["a^b", "$v", "a&b", "a!", "a?", "a`b", "a\\b", "-a-", "."],
+    # underscores: the writer puts such names in single quotes, parser and scanner take them off again
+    ["Old_High_German", "a_1", "Proto_Germanic", "d", "e_", "_f", "g", "h_i_j", "Dutch"],
 ]
 # floats whose repr() is the text itself
 LENGTHS = ["0.0", "1.0", "0.25", "2.5", "1e-05", "1e+20", "100.0", "0.1", "3.14", "12.0", "-1.5", "0.5", "7.0"]
@@ -117,9 +119,18 @@ def strip_lengths(t):
     return ("N", [strip_lengths(c) for c in t[1]], None)
 
 
+def write_quoted(rng, t):
+    """names in single quotes (always those with an underscore, the others at random)"""
+    ln = "" if t[2] is None else ":" + t[2]
+    if t[0] == "L":
+        q = "_" in t[1] or rng.random() < 0.5
+        return ("'%s'" % t[1] if q else t[1]) + ln
+    return "(" + ",".join(write_quoted(rng, c) for c in t[1]) + ")" + ln
+
+
 def format_src(rng, t, fmt):
-    s = write(t)
-    if fmt == "plain":
+    s = write_quoted(rng, t) if fmt == "quoted" else write(t)
+    if fmt in ("plain", "quoted"):
         return s + ";"
     if fmt == "nosemi":
         return s
@@ -215,7 +226,7 @@ def gen_case(rng, max_n=9):
     lm = rng.choice(["none", "none", "all", "allroot", "some"])
     a = add_lengths(rng, a, lm)
     b = add_lengths(rng, b, rng.choice([lm, lm, "none", "all"]))
-    fmt = rng.choice(["plain", "plain", "plain", "nosemi", "spaces"])
+    fmt = rng.choice(["plain", "plain", "plain", "nosemi", "spaces", "quoted"])
     return mk_case(rng, a, b, fmt=fmt, kind=kind)
 
 
@@ -265,7 +276,7 @@ def graft(rng, t, sub):
     return ("N", cs, t[2])
 
 
-MIXED = ["Lang.A", "t1", "t10", ".", "A-1", "ab"]
+MIXED = ["Lang.A", "t1", "t_1", ".", "A-1", "ab"]
 
 
 def exhaustive_pairs(n, rng, limit=None, stride=None, taxa=None):
@@ -551,11 +562,16 @@ def wname(n, unquoted_blank=False):
     return n
 
 
-def owrite(t, unquoted_blank=False):
+def owrite(t, unquoted_blank=False, labels=None):
+    """labels: None, or a counter list [k] - every internal node, the root included, then gets a label Nk"""
     ln = "" if t[2] is None else ":" + t[2]
     if t[0] == "L":
         return wname(t[1], unquoted_blank) + ln
-    return "(" + ",".join(owrite(c, unquoted_blank) for c in t[1]) + ")" + ln
+    body = "(" + ",".join(owrite(c, unquoted_blank, labels) for c in t[1]) + ")"
+    if labels is not None:
+        labels[0] += 1
+        body += "N%d" % labels[0]
+    return body + ln
 
 
 def _internal_preorder(t, acc=None):
@@ -675,8 +691,12 @@ def gen_object_case(rng, history=False):
     lm = rng.choice(["none", "all", "some"])
     a, b = add_lengths(rng, a, lm), add_lengths(rng, b, lm)
     ops = gen_ops(rng, a, b, rng.choice([1, 2, 3]))[0] if history else []
-    return {"kind": "history" if history else "objects", "a0": a, "b0": b, "ops": ops,
+    case = {"kind": "history" if history else "objects", "a0": a, "b0": b, "ops": ops,
             "unquoted_blank": rng.random() < 0.4, "pseed": rng.randrange(10 ** 6)}
+    if OBJ.inner_labels and rng.random() < 0.3:
+        # named internal nodes in the text of the first (or both) trees; never names of the pools
+        case["inner_labels"] = rng.choice(["first", "both"])
+    return case
 
 
 def expected_state(case):
@@ -732,14 +752,15 @@ class OBJ:
     lift_q = False       # set by C15.known_witnesses
     lift_s = False       # only while the witness of the scanner-character class is evaluated
     lift_b = False
+    inner_labels = False  # named internal nodes are generated only when the witness 'inner-node-labels' passes
 
     @staticmethod
     def run_impl(case):
         from lingpy.basic.tree import Tree
         ub = case["unquoted_blank"]
         a, b = case["a0"], case["b0"]
-        t1 = Tree(owrite(a, ub) + ";")
-        t2 = Tree(owrite(b, ub) + ";")
+        t1 = Tree(owrite(a, ub, [0] if case.get("inner_labels") else None) + ";")
+        t2 = Tree(owrite(b, ub, [50] if case.get("inner_labels") == "both" else None) + ";")
         for op in case["ops"]:
             # use the object before every modification (anything cached now would be stale afterwards)
             str(t1), t1.getNewick(), _dist(t1, t2), _dist(t1, t1)
@@ -850,6 +871,8 @@ class OBJ:
             out.append("names:scanner-chars")
         if any(ord(c) > 127 for x in ls for c in x):
             out.append("names:non-ascii")
+        if case.get("inner_labels"):
+            out.append("inner-labels")
         out.append("rf=raised" if res["ab"][1] is None else "rf=value")
         return out
 
@@ -869,7 +892,8 @@ def gen_scanner_case(rng):
     n = rng.choice([3, 4, 5, 6, 7])
     t = add_lengths(rng, random_topology(rng, rng.sample(pool, n), rng.choice([0.2, 0.5])),
                     rng.choice(["none", "all", "some"]))
-    s = owrite(t, rng.random() < 0.5) if c < 0.8 else write(t)       # quoted as the writer would / names verbatim
+    labels = [rng.randrange(90)] if rng.random() < 0.3 else None       # named internal nodes and root
+    s = owrite(t, rng.random() < 0.5, labels) if c < 0.8 else write(t)   # quoted as the writer would / names verbatim
     if rng.random() < 0.15:                                           # damage the text a little
         i = rng.randrange(len(s))
         s = s[:i] + rng.choice(["", "(", ")", ",", " ", "'"]) + s[i + rng.choice([0, 1]):]
